@@ -118,9 +118,10 @@ pub fn drive_hooked(args: &[String]) {
         let tag = format!("g{run}");
         let seen: Vec<Vec<usize>> = if undirected { edges.iter().flat_map(|&(a, b)| [vec![a, b], vec![b, a]]).collect() } else { edges.iter().map(|&(a, b)| vec![a, b]).collect() };
         sink.emit(json!({"ev": "header", "run": tag, "edges": seen, "s": s, "t": t, "undirected": undirected}));
-        let _ = rust_dsymbols::verif::take();
+        rust_dsymbols::verif::record(true); let _ = rust_dsymbols::verif::take();
         let e2 = edges.clone();
         let r = catch(|| if undirected { min_edge_cut_undirected(e2, s, t) } else { min_edge_cut(e2, s, t) });
+        rust_dsymbols::verif::record(false);
         for e in rust_dsymbols::verif::take() {
             let mut v: Value = serde_json::from_str(&e).expect("hook event");
             v["run"] = json!(tag);
